@@ -6,6 +6,14 @@ BASE = "cd /repo && /venv/bin/python -m pytest -ra -q -p no:cacheprovider --time
 
 # id -> (engine, level, technique, level text, level note, design ref)
 CHECKS = {
+ "C05": ("HX", "model_checking",
+         "explicit-state BFS over operation histories of real Arm objects paired with a product-of-exponentials reference model; solver answers are environment answers; from-scratch replay of every state's history",
+         "Per arm (6 quick / 14 thorough: 6R test arm at identity and at a base, bundled URDF arms, generated 1-7 joint chains incl. prismatic) every history of length <= 2 (quick) / <= 3 (thorough) over a 22-operation alphabet {FK x7, IK x6, move x3, setArbitraryHome x3, restoreOriginalEE, randomPos x2} is executed; after every transition base pose, reported tool pose, joint state, joint frames and defaulted-argument queries are compared with base*PoE*home.",
+         "Depth <= 3 (not the 10 of the quantifier text); finite theta palette; reference built from copies of the construction data (URDF arms from the loaded arm, loader is C13's). KF1 (re-basing of joint frames with near-pi rotations) and KF3 (URDF 'last joint' frame after tool change) are matched narrowly as known findings.", "DESIGN 4/C05"),
+ "C20": ("LX", "exploration",
+         "bounded-exhaustive enumeration of all array shapes (extent 0..4, rank 0..5) x dtypes x fills x decimals x titles and of object kinds, with numeric fields parsed back from the rendered text",
+         "All 3906 shapes x 3 dtypes x fill patterns x decimals x titles in table mode, all 2-D shapes in LaTeX mode, scalars/strings/None, all nested list/tuple trees to depth 3 over small leaf alphabets, tm/Wrench and lists of them: totality, print == return, and element faithfulness (rank<=4, |x|<9999) decided by an independent parser in exact Decimal arithmetic.",
+         "Finite shape/value lattice; content of non-array renderings only checked for totality and print agreement, as the property states.", "DESIGN 4/C20"),
  "C01": ("LX", "exploration",
          "bounded-exhaustive enumeration: complete Cartesian products of branch-boundary palettes (axes x angles x translations, all pose pairs) through the real kernels against an independent NumPy oracle",
          "Every clause of the statement is evaluated on the complete product of 15 axes x 33 angles (x 6 translations) placed on both sides of the 1e-6 cut-off, the acos clamps and the half-turn sub-branches, plus all ordered pairs of a ~360-pose palette for the homomorphism laws.",
